@@ -55,6 +55,9 @@ func EncodeString(v string, quote byte, alt *rand.Rand) string {
 	}
 	var b strings.Builder
 	b.WriteByte(quote)
+	if alt != nil && alt.Intn(25) == 0 {
+		b.WriteString("\\\n") // a continuation right after the opening quote
+	}
 	for _, r := range v {
 		switch {
 		case r == '\\':
@@ -97,6 +100,12 @@ func EncodeString(v string, quote byte, alt *rand.Rand) string {
 				b.WriteByte('\\')
 			}
 			b.WriteRune(r)
+		}
+	}
+	if alt != nil && alt.Intn(25) == 0 {
+		b.WriteString("\\\n") // ... and right before the closing one
+		if alt.Intn(3) == 0 {
+			b.WriteString("\\\n")
 		}
 	}
 	b.WriteByte(quote)
